@@ -127,6 +127,8 @@ def spill_regs(
 
             if op in spill_locs:
                 # XXX: could we set uninit?
+                if op.is_borrowed and op.type.is_refcounted:
+                    block.ops.append(IncRef(op))
                 block.ops.append(SetAttr(env_reg, spill_locs[op], op, op.line))
 
     return blocks
